@@ -44,6 +44,7 @@ type Query {
   labelAlso: Tag
   odd: Thing
   stamps: [Time]
+  matrix: [[Int]]
   levels: [Size]
   vari(xs: [String]): String
   triple: String
@@ -175,7 +176,9 @@ const (
 )
 
 // IsScalarListField tells whether a zoo field is a list of bare scalars.
-func IsScalarListField(field string) bool { return field == "tags" || field == "nums" }
+func IsScalarListField(field string) bool {
+	return field == "tags" || field == "nums" || field == "matrix"
+}
 
 // BadListFor is the value a scalar-list field returns under FaultBadList and
 // the data expected in the response for it.
@@ -183,7 +186,21 @@ func BadListFor(field string) (value []interface{}, expect []interface{}) {
 	if field == "nums" {
 		return []interface{}{10, badLeaf{}, 12, badLeaf{}}, []interface{}{10, nil, 12, nil}
 	}
+	if field == "matrix" {
+		// a list of lists: the two bad members sit in different inner lists
+		return []interface{}{[]interface{}{1, badLeaf{}, 3}, []interface{}{badLeaf{}, 5}},
+			[]interface{}{[]interface{}{1, nil, 3}, []interface{}{nil, 5}}
+	}
 	return []interface{}{"g0", badLeaf{}, "g2", badLeaf{}}, []interface{}{"g0", nil, "g2", nil}
+}
+
+// BadListPaths are the positions of the two bad members of BadListFor(field),
+// relative to the field.
+func BadListPaths(field string) [2][]interface{} {
+	if field == "matrix" {
+		return [2][]interface{}{{0, 1}, {1, 0}}
+	}
+	return [2][]interface{}{{1}, {3}}
 }
 
 // Call is one logged resolver invocation.
@@ -234,7 +251,7 @@ var ErrInjectedResolve = errors.New("injected resolver failure")
 func IsLeafField(typ, field string) bool {
 	for _, f := range zooTypes[typ] {
 		if f.name == field {
-			return f.typ == "" && field != "tags" && field != "nums"
+			return f.typ == "" && field != "tags" && field != "nums" && field != "matrix"
 		}
 	}
 	return false
@@ -380,6 +397,9 @@ type Query struct {
 	// Stamps / Levels are lists of leaf values whose stored form is not their
 	// output form (time.Time, ggql.Symbol); the application hands the same
 	// []interface{} to every request.
+	// Matrix is a list of lists of scalars, handed out as []interface{} of
+	// []interface{}.
+	Matrix []interface{}
 	Stamps []interface{}
 	Levels []interface{}
 	// Chief is served by a second Go struct for the GraphQL type Keeper (other
@@ -738,6 +758,7 @@ func GenZoo(t *tape.Tape) *Query {
 	q.LabelRef = &Label{T: "rt" + q.Title, A: "ra" + q.Title}
 	q.LabelAlso = &Label{T: "at" + q.Title, A: "aa" + q.Title}
 	q.Odd = map[string]interface{}{"name": "odd"}
+	q.Matrix = []interface{}{[]interface{}{1, 2, 3}, []interface{}{4, 5}}
 	q.Stamps = []interface{}{time.Unix(1600000000, 0).UTC(), time.Unix(1600000500, 0).In(time.FixedZone("east", 3600)), nil}
 	q.Levels = []interface{}{ggql.Symbol("BIG"), "SMALL", ggql.Symbol("SMALL")}
 	q.Chief = &KeeperAlt{Rank: q.Boss.Rank, Age: q.Boss.Age + 1, Note: "alt", Name: "chief-" + q.Boss.Name}
@@ -931,6 +952,8 @@ func zooField(q *Query, obj interface{}, name string, args map[string]interface{
 			return o.LabelAlso, nil
 		case "odd":
 			return o.Odd, nil
+		case "matrix":
+			return o.Matrix, nil
 		case "stamps":
 			return o.Stamps, nil
 		case "levels":
